@@ -96,6 +96,9 @@ func (e *Exec) callFunction(st *State, fr *Frame, site ssa.Instruction, fn *ssa.
 	if full == "(*sync.WaitGroup).Add" && len(e.db.wgorders) > 0 && len(args) == 2 {
 		e.checkWgOrder(st, fr, site, e.term(args[0]), e.term(args[1]))
 	}
+	if len(e.db.callguards) > 0 {
+		e.checkCallGuards(st, fr, site, full)
+	}
 	if c, ok := e.db.externs[full]; ok {
 		e.usedExt[full] = true
 		return e.applyContract(st, fr, site, c, fn, args, k)
@@ -184,6 +187,9 @@ func (e *Exec) invoke(st *State, fr *Frame, d *Deferred, k contFn, isDefer bool)
 	if tid.IsLit() {
 		T := tidTypes[int(tid.LitVal().Int64())]
 		return e.callMethodOn(st, fr, d, T, recv, k, isDefer)
+	}
+	if len(e.db.callguards) > 0 {
+		e.checkCallGuards(st, fr, d.site, "iface:"+key)
 	}
 	if c, ok := e.db.externs["iface:"+key]; ok {
 		e.usedExt["iface:"+key] = true
